@@ -751,6 +751,39 @@ func runC13(c *mon.Ctx) {
 			}
 		})
 	}
+	// what is no method: the request is refused when it is built, or what is sent is what was signed
+	if c.Shard == 0 {
+		id := gen.NewIdentity(c.RandShared("method-signer"), "origin.example", "ed25519:m1")
+		for _, method := range []string{"", " ", "GE T", "G\x00T", "GET\r\nX-Injected: 1"} {
+			c.Case("request:odd-method", map[string]any{"method": method}, func() {
+				c.Nontrivial("odd-method|" + method)
+				fr := fclient.NewFederationRequest(method, "origin.example", "dest.example", "/_matrix/federation/v1/version")
+				if err := fr.Sign("origin.example", gmsl.KeyID(id.KeyID), id.Priv); err != nil {
+					return
+				}
+				hr, err := fr.HTTPRequest()
+				c.Count("odd_method_requests")
+				if err != nil {
+					return
+				}
+				var buf bytes.Buffer
+				if err := hr.Write(&buf); err != nil {
+					return
+				}
+				parsed, err := http.ReadRequest(bufio.NewReader(bytes.NewReader(buf.Bytes())))
+				if err != nil {
+					c.Failf("sign:http-request-cannot-be-read-back", "HTTPRequest builds a request with the method %q that no HTTP server can read (%v)", method, err)
+					return
+				}
+				db := newMemKeyDB()
+				db.set("origin.example", id.KeyID, id.Pub, time.Now().UnixMilli()+24*3600*1000, 0)
+				got, resp := fclient.VerifyHTTPRequest(parsed, time.Now(), "dest.example", nil, &gmsl.KeyRing{KeyDatabase: db})
+				if got == nil || resp.Code != 200 || got.Method() != fr.Method() {
+					c.Failf("sign:http-request-is-not-the-request-that-was-signed:method", "a request signed with the method %q is built by HTTPRequest, goes out as %q and is answered %d by VerifyHTTPRequest: neither refused when built nor delivered as signed", method, parsed.Method, resp.Code)
+				}
+			})
+		}
+	}
 	c.Floor("verified_untampered", 100)
 	c.Floor("verified_tampered", 1000)
 	c.Floor("verified_invalid_origin", 30)
